@@ -234,7 +234,7 @@ def as_slots(x):
     raise Unsupported('cannot render %r' % type(x))
 
 
-_FIELD = _re.compile(r'\{(\w*)\}')
+_FIELD = _re.compile(r'\{(\w*)(?::([^{}]*))?\}')
 
 
 def sym_format(template, *args, **kwargs):
@@ -252,7 +252,10 @@ def sym_format(template, *args, **kwargs):
             val = args[int(key)]
         else:
             val = kwargs[key]
-        slots += as_slots(val)
+        spec = m.group(2) or ''
+        if spec and not isinstance(val, SymDecimal):
+            raise Unsupported('format spec %r for %r' % (spec, type(val)))
+        slots += val.render_slots(spec) if isinstance(val, SymDecimal) else as_slots(val)
         pos = m.end()
     slots += [(True, ord(c)) for c in template[pos:]]
     return OutStr(slots)
@@ -336,10 +339,12 @@ def sym_int(x, *a):
 
 
 class SymDecimal(object):
+    """Decimal(text) for a literal  [+-]?digits[.digits] : rendering by str() / format(, 'f')"""
+
     def __init__(self, src, sign_char, int_digits, frac_digits):
         self.src, self.sign_char, self.int_digits, self.frac_digits = src, sign_char, int_digits, frac_digits
 
-    def render_slots(self):
+    def _plain(self):
         g = _leading_zero_guards(self.int_digits)
         slots = []
         if self.sign_char is not None:
@@ -348,6 +353,44 @@ class SymDecimal(object):
         if self.frac_digits:
             slots.append((True, 46))
             slots += [(True, c) for c in self.frac_digits]
+        return slots
+
+    def render_slots(self, spec=''):
+        """spec 'f': plain decimal form.  spec '': Decimal.__str__, which switches to scientific notation when the exponent is
+        negative and  len(coefficient) - len(fraction) <= -6  (decimal.py: leftdigits > -6 keeps the plain form); the coefficient is
+        the digit string without its leading zeros ('0' for zero)."""
+        if spec == 'f' or not self.frac_digits:
+            return self._plain()
+        if spec != '':
+            raise Unsupported('format spec %r for a Decimal' % spec)
+        alld = list(self.int_digits) + list(self.frac_digits)
+        F = len(self.frac_digits)
+        sig = _leading_zero_guards(alld)
+        static = all(isinstance(g, bool) for g in sig)
+        L = sum(1 for g in sig if g) if static else _count(sig)
+        sci = (L - F <= -6)
+        if sci is False or (static and not sci):
+            return self._plain()
+        nsci = Not(sci) if not static else False
+        slots = [(And(g, nsci), c) for g, c in self._plain()] if not static else []
+        if self.sign_char is not None:
+            slots.append((And(sci, P.ceq(self.sign_char, 45)), 45))
+        last = len(alld) - 1
+        for p, c in enumerate(alld):
+            slots.append((And(sci, sig[p]), c))
+            if p < last:
+                first = And(sig[p], Not(sig[p - 1])) if p > 0 else sig[p]
+                slots.append((And(sci, first), 46))
+        slots.append((sci, 69))          # 'E'
+        slots.append((sci, 45))          # '-'
+        exp = F - L + 1                  # magnitude of the (negative) exponent, >= 7
+        if static:
+            slots += [(True, ord(ch)) for ch in str(exp)]
+        else:
+            if F + 1 > 99:
+                raise Unsupported('exponent with more than two digits')
+            slots.append((And(sci, exp >= 10), z3.Int2BV(48 + exp / 10, 8)))
+            slots.append((sci, z3.Int2BV(48 + exp % 10, 8)))
         return slots
 
 
@@ -375,17 +418,6 @@ class DecimalShim(metaclass=DecimalMeta):
                 if mkbool(And(*conds)):
                     ints = value.chars[sign:digits_end]
                     fracs = value.chars[dot + 1:] if dot is not None else []
-                    # Decimal.__str__ switches to scientific notation when  len(coefficient) - len(fraction) <= -6
-                    alld = ints + fracs
-                    lead = z3.IntVal(0)
-                    run = True
-                    for c in alld[:-1]:
-                        run = And(run, P.ceq(c, 48))
-                        lead = lead + z3.If(run, 1, 0) if not isinstance(run, bool) else lead + (1 if run else 0)
-                    coeff_len = len(alld) - lead
-                    if fracs and mkbool(coeff_len - len(fracs) <= -6):
-                        note_lenient('Decimal renders small magnitudes in scientific notation')
-                        raise LenientAccept('Decimal-sci')
                     return SymDecimal(value, value.chars[0] if sign else None, ints, fracs)
         # everything else Decimal() accepts (grammar of decimal.Decimal written out; validated against the real constructor):
         # blanks around, underscores among the digits, bare points, exponents, Infinity, NaN
